@@ -1221,10 +1221,15 @@ impl<A: Ar> Exec<A> {
         // ---- reopen
         let mut opts = self.cfg.options().with_read(true);
         let stored_cap = d.capacity as u32;
-        opts = match capk % 3 {
+        opts = match capk % 4 {
             0 => opts.with_capacity(stored_cap),
             1 => opts.with_capacity(stored_cap + 64 + (self.step as u32 % 3) * 4096),
-            _ => opts.maybe_capacity(None),
+            2 => opts.maybe_capacity(None),
+            // smaller than the file, never below the stored cursor
+            _ => {
+                let cur = d.snap.allocated;
+                opts.with_capacity(cur + (stored_cap - cur.min(stored_cap)) * (self.step as u32 % 3) / 3)
+            }
         };
         let file_len_before = std::fs::metadata(&path).map(|m| m.len()).unwrap_or(0);
         // create_new on an existing file must be refused and must leave the file alone
@@ -1251,7 +1256,7 @@ impl<A: Ar> Exec<A> {
         let arena = match r {
             Ok(a) => a,
             Err(e) => {
-                self.v("C05", "reopen_failed", format!("reopen mode {} cap-kind {} failed: {} (file length {})", mode % 4, capk % 3, e, file_len_before));
+                self.v("C05", "reopen_failed", format!("reopen mode {} cap-kind {} failed: {} (file length {})", mode % 4, capk % 4, e, file_len_before));
                 self.dead = true;
                 return Obs { result: "crash:reopen_failed".into(), ..Default::default() };
             }
@@ -1284,12 +1289,17 @@ impl<A: Ar> Exec<A> {
                 self.v("C05", "bytes_changed", format!("handed-out range [{},{}) differs after reopen (mode {})", r.off, r.off + r.cap, mode % 4));
             }
         }
-        let want_cap = match capk % 3 {
-            0 => stored_cap as usize,
-            1 => a.capacity(),
-            _ => a.capacity(),
+        // the capacity asked for is the capacity of the session
+        let asked = match capk % 4 {
+            0 => Some(stored_cap as usize),
+            3 => Some((d.snap.allocated + (stored_cap - d.snap.allocated.min(stored_cap)) * (self.step as u32 % 3) / 3) as usize),
+            _ => None,
         };
-        let _ = want_cap;
+        if let Some(c) = asked {
+            if a.capacity() != c {
+                self.v("C05", "capacity", format!("reopen (mode {}) with capacity {}: capacity() is {}", mode % 4, c, a.capacity()));
+            }
+        }
         self.data_offset = a.data_offset();
         // ---- C16: descriptive accessors report the mode the arena was opened with
         let want_ro = mode % 4 >= 2;
